@@ -3,6 +3,8 @@
  *   Y hex      decode a packed ymd word    -> y m d
  *   C hex      decode a packed ymcw word   -> y m c w   (w as ISO weekday 1..7)
  *   H hex      decode a packed hms word    -> h m s
+ *   PY text    parse text as %Y-%m-%d     -> the packed word the library holds for that day ("hex")
+ *   PC text    parse text as %Y-%m-%c-%w  -> ditto for the ymcw notation
  * one answer line per command, JSON */
 #include <stdio.h>
 #include <stdlib.h>
@@ -60,6 +62,12 @@ main(void)
 				printf("}");
 			}
 			printf("]}\n");
+		} else if (line[0] == 'P' && (line[1] == 'Y' || line[1] == 'C')) {
+			char *ep = NULL;
+			struct dt_d_s d;
+			line[strcspn(line, "\n")] = '\0';
+			d = dt_strpd(line + 3, line[1] == 'Y' ? "%Y-%m-%d" : "%Y-%m-%c-%w", &ep);
+			printf("\"%x\"\n", line[1] == 'Y' ? d.ymd.u : d.ymcw.u);
 		} else if (line[0] == 'Y') {
 			pr_ymd((uint32_t)strtoul(line + 2, NULL, 16));
 			putchar('\n');
